@@ -7,6 +7,7 @@ import (
 	"testing"
 
 	"github.com/bytom/bytom/protocol/bc"
+	"github.com/bytom/bytom/protocol/bc/types"
 	"github.com/bytom/bytom/protocol/state"
 
 	"verif/internal/chainkit"
@@ -44,104 +45,180 @@ func TestC16(t *testing.T) {
 	net := chainkit.Configure(chainkit.Params{Epoch: 4, Fed: 4, Local: local, VotePending: 3, NKeys: 5})
 	g := net.NewGenesis(14, 2)
 
+	runCase := func(c *ev.Case, tr *chainkit.Tree, steps []chainkit.Step, tag string) {
+		runC16(c, net, g, tr, steps, base, tag, local)
+	}
+	// crafted: several branches above a common checkpoint S; every honest validator votes skip links S -> T_i to
+	// checkpoints at different heights on different branches BEFORE S is justified, then S gets justified: the
+	// links take effect late, all at once
+	r.Cases("late-skip-links", r.N(16, 800), func(c *ev.Case) {
+		rng := c.Rand
+		tr := net.NewTree(g)
+		E := int(net.P.Epoch)
+		p := tr.Root
+		var steps []chainkit.Step
+		for i := 0; i < E; i++ {
+			b, err := tr.Build(p, []*types.Tx{}, chainkit.BlockOpt{})
+			if err != nil {
+				c.Violation("harness:build", "cannot build", err.Error())
+				return
+			}
+			steps = append(steps, chainkit.Step{Blk: b})
+			p = b
+		}
+		S := p
+		nbr := rng.Range(2, 3)
+		var targets []*chainkit.Blk
+		for k := 0; k < nbr; k++ {
+			q := S
+			epochs := 2 + k + rng.Intn(2)
+			for i := 0; i < epochs*E; i++ {
+				bo := chainkit.BlockOpt{}
+				if i == 0 {
+					bo.SkipSlots = k
+				}
+				b, err := tr.Build(q, []*types.Tx{}, bo)
+				if err != nil {
+					c.Violation("harness:build", "cannot build", err.Error())
+					return
+				}
+				steps = append(steps, chainkit.Step{Blk: b})
+				q = b
+			}
+			targets = append(targets, q) // the last checkpoint of the branch: at least two epochs above S
+		}
+		// distinct target heights (a validator may not vote twice for one height)
+		seen := map[uint64]bool{}
+		var votes []chainkit.Step
+		for _, t := range targets {
+			for seen[t.Height] && t.Height > S.Height+2*uint64(E) {
+				t = tr.PrevCP(t)
+			}
+			if seen[t.Height] {
+				continue
+			}
+			seen[t.Height] = true
+			for k := 0; k < 4; k++ {
+				if k == local {
+					continue
+				}
+				votes = append(votes, chainkit.Step{Vote: &chainkit.VoteSpec{Key: k, Source: S, Target: t}})
+			}
+		}
+		rng.Shuffle(len(votes), func(i, j int) { votes[i], votes[j] = votes[j], votes[i] })
+		steps = append(steps, votes...)
+		for k := 0; k < 4; k++ {
+			if k != local {
+				steps = append(steps, chainkit.Step{Vote: &chainkit.VoteSpec{Key: k, Source: tr.Root, Target: S}})
+			}
+		}
+		c.Count("late_skip_link_cases", 1)
+		runCase(c, tr, steps, "late-skip-links")
+	})
 	r.Cases("schedules", r.N(48, 4800), func(c *ev.Case) {
 		tr := genTree(c, net, g, 18, 42)
 		if tr == nil {
 			return
 		}
-		fo := chainkit.FFGOpt{Byzantine: 3, VotePct: 85, EarlyVotePct: 12, GarbagePct: 5, BlockOrder: c.Index % 3, Duplicates: true, ByzExtra: 2, NodeKey: local}
+		fo := chainkit.FFGOpt{Byzantine: 3, VotePct: 85, EarlyVotePct: 12, GarbagePct: 5, BlockOrder: c.Index % 3, Duplicates: true, ByzExtra: 2, NodeKey: local, VotesLastDescending: c.Index%4 == 3, SkipEpochPct: []int{0, 25}[c.Index%2]}
 		steps, _ := tr.GenScheduleFFG(c.Rand, fo)
-		c.Journal(map[string]interface{}{"shape": tr.Shape(), "steps": len(steps)})
-		c.Distinct("%s|%d|%d|%d", tr.Shape(), len(steps), fo.BlockOrder, local)
-		rn, err := newRunner(c, net, g, tr, fmt.Sprintf("%s/n%d", base, c.Index))
-		if err != nil {
-			c.Inconclusive("node: %v", err)
-			return
-		}
-		defer func() { rn.nd.Destroy() }()
-		prevFin := tr.Root
-		everFinal := map[bc.Hash]bool{}
-		rn.run(steps, runOpt{reopenPct: 4, headerVotes: true}, func(si int, s chainkit.Step, err error, ob *obs, restarted bool) bool {
-			ctx := map[string]interface{}{"step": si, "event": s.String(), "after_restart": restarted, "shape": tr.Shape(), "trail": rn.trail}
-			fin := tr.ByHash[ob.lastFin]
-			if fin == nil {
-				c.Violation("last-finalized-unknown-block", "LastFinalized is not a block of the tree", ctx)
-				return false
-			}
-			// 1. the last finalized checkpoint only moves to descendants of itself
-			if fin.Hash != prevFin.Hash {
-				if !prevFin.IsAncestorOf(fin) {
-					kind := "moved-to-non-descendant"
-					if fin.IsAncestorOf(prevFin) {
-						kind = "moved-back-to-ancestor"
-					}
-					if restarted {
-						kind += ":after-restart"
-					}
-					ctx["from"] = fmt.Sprintf("h%d %s", prevFin.Height, short(prevFin.Hash))
-					ctx["to"] = fmt.Sprintf("h%d %s", fin.Height, short(fin.Hash))
-					c.Violation("last-finalized:"+kind, "the last finalized checkpoint moved to a block that is not its descendant", ctx)
-					return false
-				}
-				c.Count("finalizations_observed", 1)
-				prevFin = fin
-			}
-			// 2. all checkpoints with status Finalized (engine tree and store) lie on one chain
-			var finals []*chainkit.Blk
-			seen := map[bc.Hash]bool{}
-			for h, st := range ob.store {
-				if st == state.Finalized && tr.ByHash[h] != nil && !seen[h] {
-					finals = append(finals, tr.ByHash[h])
-					seen[h] = true
-				}
-			}
-			for h, n := range ob.tree {
-				if n.Status == state.Finalized && tr.ByHash[h] != nil && !seen[h] {
-					finals = append(finals, tr.ByHash[h])
-					seen[h] = true
-				}
-			}
-			for i := range finals {
-				everFinal[finals[i].Hash] = true
-				for j := i + 1; j < len(finals); j++ {
-					a, b := finals[i], finals[j]
-					if !a.IsAncestorOf(b) && !b.IsAncestorOf(a) {
-						ctx["a"] = fmt.Sprintf("h%d %s", a.Height, short(a.Hash))
-						ctx["b"] = fmt.Sprintf("h%d %s", b.Height, short(b.Hash))
-						c.Violation("two-finalized-checkpoints-not-on-one-chain", "two checkpoints that are not on one chain both have status Finalized", ctx)
-						return false
-					}
-				}
-			}
-			// 3. the main chain contains the last finalized checkpoint and every block ever reported finalized
-			best := tr.ByHash[ob.best]
-			if best == nil || !fin.IsAncestorOf(best) {
-				ctx["best"] = short(ob.best)
-				ctx["finalized"] = fmt.Sprintf("h%d %s", fin.Height, short(fin.Hash))
-				c.Violation("best-does-not-descend-from-last-finalized", "the best block does not descend from the last finalized checkpoint", ctx)
-				return false
-			}
-			for h := range everFinal {
-				if !rn.nd.Chain.InMainChain(h) {
-					ctx["block"] = short(h)
-					c.Violation("finalized-block-left-main-chain", "a block once reported finalized is no longer on the main chain", ctx)
-					return false
-				}
-			}
-			if s.Vote != nil && s.Vote.Byz {
-				c.Count("byzantine_votes_sent", 1)
-			}
-			c.Count("states_checked", 1)
-			return true
-		})
-		if c.WantSample() {
-			c.Sample(map[string]interface{}{"tree_shape": tr.Shape(), "steps": len(steps), "final_finalized_height": prevFin.Height, "trail_tail": tail(rn.trail, 6)})
-		}
+		runCase(c, tr, steps, fmt.Sprintf("order%d", fo.BlockOrder))
 	})
 	r.Floor("states_checked", 1000)
 	r.Floor("finalizations_observed", 20)
 	r.Floor("byzantine_votes_sent", 50)
 	r.Floor("restarts", 10)
+	r.Floor("late_skip_link_cases", 8)
+}
+
+// runC16 drives one schedule and checks the finality invariants after every step.
+func runC16(c *ev.Case, net *chainkit.Net, g *chainkit.Genesis, tr *chainkit.Tree, steps []chainkit.Step, base, tag string, local int) {
+	c.Journal(map[string]interface{}{"shape": tr.Shape(), "steps": len(steps)})
+	c.Distinct("%s|%d|%s|%d", tr.Shape(), len(steps), tag, local)
+	rn, err := newRunner(c, net, g, tr, fmt.Sprintf("%s/n%d", base, c.Index))
+	if err != nil {
+		c.Inconclusive("node: %v", err)
+		return
+	}
+	defer func() { rn.nd.Destroy() }()
+	prevFin := tr.Root
+	everFinal := map[bc.Hash]bool{}
+	rn.run(steps, runOpt{reopenPct: 4, headerVotes: true}, func(si int, s chainkit.Step, err error, ob *obs, restarted bool) bool {
+		ctx := map[string]interface{}{"step": si, "event": s.String(), "after_restart": restarted, "shape": tr.Shape(), "trail": rn.trail}
+		fin := tr.ByHash[ob.lastFin]
+		if fin == nil {
+			c.Violation("last-finalized-unknown-block", "LastFinalized is not a block of the tree", ctx)
+			return false
+		}
+		// 1. the last finalized checkpoint only moves to descendants of itself
+		if fin.Hash != prevFin.Hash {
+			if !prevFin.IsAncestorOf(fin) {
+				kind := "moved-to-non-descendant"
+				if fin.IsAncestorOf(prevFin) {
+					kind = "moved-back-to-ancestor"
+				}
+				if restarted {
+					kind += ":after-restart"
+				}
+				ctx["from"] = fmt.Sprintf("h%d %s", prevFin.Height, short(prevFin.Hash))
+				ctx["to"] = fmt.Sprintf("h%d %s", fin.Height, short(fin.Hash))
+				c.Violation("last-finalized:"+kind, "the last finalized checkpoint moved to a block that is not its descendant", ctx)
+				return false
+			}
+			c.Count("finalizations_observed", 1)
+			prevFin = fin
+		}
+		// 2. all checkpoints with status Finalized (engine tree and store) lie on one chain
+		var finals []*chainkit.Blk
+		seen := map[bc.Hash]bool{}
+		for h, st := range ob.store {
+			if st == state.Finalized && tr.ByHash[h] != nil && !seen[h] {
+				finals = append(finals, tr.ByHash[h])
+				seen[h] = true
+			}
+		}
+		for h, n := range ob.tree {
+			if n.Status == state.Finalized && tr.ByHash[h] != nil && !seen[h] {
+				finals = append(finals, tr.ByHash[h])
+				seen[h] = true
+			}
+		}
+		for i := range finals {
+			everFinal[finals[i].Hash] = true
+			for j := i + 1; j < len(finals); j++ {
+				a, b := finals[i], finals[j]
+				if !a.IsAncestorOf(b) && !b.IsAncestorOf(a) {
+					ctx["a"] = fmt.Sprintf("h%d %s", a.Height, short(a.Hash))
+					ctx["b"] = fmt.Sprintf("h%d %s", b.Height, short(b.Hash))
+					c.Violation("two-finalized-checkpoints-not-on-one-chain", "two checkpoints that are not on one chain both have status Finalized", ctx)
+					return false
+				}
+			}
+		}
+		// 3. the main chain contains the last finalized checkpoint and every block ever reported finalized
+		best := tr.ByHash[ob.best]
+		if best == nil || !fin.IsAncestorOf(best) {
+			ctx["best"] = short(ob.best)
+			ctx["finalized"] = fmt.Sprintf("h%d %s", fin.Height, short(fin.Hash))
+			c.Violation("best-does-not-descend-from-last-finalized", "the best block does not descend from the last finalized checkpoint", ctx)
+			return false
+		}
+		for h := range everFinal {
+			if !rn.nd.Chain.InMainChain(h) {
+				ctx["block"] = short(h)
+				c.Violation("finalized-block-left-main-chain", "a block once reported finalized is no longer on the main chain", ctx)
+				return false
+			}
+		}
+		if s.Vote != nil && s.Vote.Byz {
+			c.Count("byzantine_votes_sent", 1)
+		}
+		c.Count("states_checked", 1)
+		return true
+	})
+	if c.WantSample() {
+		c.Sample(map[string]interface{}{"tree_shape": tr.Shape(), "steps": len(steps), "final_finalized_height": prevFin.Height, "trail_tail": tail(rn.trail, 6)})
+	}
 }
 
 func tail(s []string, n int) []string {
